@@ -202,6 +202,14 @@ fn matches(env: &Env, t: &Ty, x: &TypeExpr) -> Result<(), String> {
                 }
                 matches(env, e, xe)
             }
+            // TypeScript writes a fixed-length array as a tuple of that many members: none for length 0
+            (LangId::Ts, TypeExpr::Tuple(v)) if v.is_empty() => {
+                if *n == 0 {
+                    Ok(())
+                } else {
+                    Err("array-length".into())
+                }
+            }
             (LangId::Ts, _) | (LangId::Go, _) => Err("array-shape".into()),
             (_, TypeExpr::Seq(xe)) => matches(env, e, xe),
             _ => Err("array-shape".into()),
@@ -353,7 +361,7 @@ fn enumerate_depth2() -> Vec<Ty> {
     leaves.push(Ty::Param("T".into()));
     leaves.push(Ty::User("Gen1".into(), vec![Ty::Prim("u8")]));
     let wrap = |t: &Ty| -> Vec<Ty> {
-        let mut v = vec![Ty::Vec(Box::new(t.clone())), Ty::Array(Box::new(t.clone()), 3), Ty::Slice(Box::new(t.clone())), Ty::Opt(Box::new(t.clone())), Ty::Ref(Box::new(t.clone())), Ty::User("Gen1".into(), vec![t.clone()])];
+        let mut v = vec![Ty::Vec(Box::new(t.clone())), Ty::Array(Box::new(t.clone()), 3), Ty::Array(Box::new(t.clone()), 0), Ty::Slice(Box::new(t.clone())), Ty::Opt(Box::new(t.clone())), Ty::Ref(Box::new(t.clone())), Ty::User("Gen1".into(), vec![t.clone()])];
         for w in PLAIN_WRAPPERS {
             v.push(Ty::Wrap(w, Box::new(t.clone())));
         }
@@ -672,7 +680,7 @@ pub fn run(ctx: &Ctx) -> (Spec, Report) {
                 model.aliases = nonparam.iter().skip(12).take(12).cloned().collect();
             } else {
                 let generics: Vec<String> = if rng.chance(1, 3) { vec!["T".into(), "U".into()] } else { vec![] };
-                let cx = TyCtx { users: vec![("UserA".into(), 0), ("UserB".into(), 0), ("Gen1".into(), 1), ("Gen2".into(), 2)], params: generics.clone(), ..Default::default() };
+                let cx = TyCtx { users: vec![("UserA".into(), 0), ("UserB".into(), 0), ("Gen1".into(), 1), ("Gen2".into(), 2)], params: generics.clone(), zero_len_arrays: true, ..Default::default() };
                 let mut cx2 = cx.clone();
                 cx2.params.clear();
                 let depth = rng.range(1, 5);
@@ -762,7 +770,7 @@ pub fn run(ctx: &Ctx) -> (Spec, Report) {
     rep.merge(keyword_named_types());
     let spec = Spec {
         level: "exploration",
-        rule: format!("all {} type expressions of depth <= 2 over {{14 primitives, (), user type, generic parameter, generic instance}} closed under Vec, [T;3], &[T], Option, &T, 8 smart pointers, generic user type and HashMap with 7 key types (exhaustive, {} programs), plus random trees of depth <= 5; positions field / newtype payload / alias target / const type (a sixth of the fields and payloads given through `serialized_as` on an opaque Rust type) / generic alias, generic newtype struct and generic tagged-enum payload whose target mentions the item's own parameters (TS, Kotlin, Swift, Scala); random prefix and type_mappings tables (user types and generic bases for all backends, container instances for TS/Go/Python), path qualification varied; each use site is parsed back into a tree and compared with an independent reference translation under per-language JSON-category and integer-range tables; plus user types whose own names are Swift keywords (Type, Protocol, Any) referred to from 11 positions under 3 prefixes in Swift and Kotlin, where every spelling of the name in the output must be the declared one; distinct = (language, position, depth, outer constructor)", exh.len(), n_exh),
+        rule: format!("all {} type expressions of depth <= 2 over {{14 primitives, (), user type, generic parameter, generic instance}} closed under Vec, [T;3], [T;0], &[T], Option, &T, 8 smart pointers, generic user type and HashMap with 7 key types (exhaustive, {} programs), plus random trees of depth <= 5; positions field / newtype payload / alias target / const type (a sixth of the fields and payloads given through `serialized_as` on an opaque Rust type) / generic alias, generic newtype struct and generic tagged-enum payload whose target mentions the item's own parameters (TS, Kotlin, Swift, Scala); random prefix and type_mappings tables (user types and generic bases for all backends, container instances for TS/Go/Python), path qualification varied; each use site is parsed back into a tree and compared with an independent reference translation under per-language JSON-category and integer-range tables; plus user types whose own names are Swift keywords (Type, Protocol, Any) referred to from 11 positions under 3 prefixes in Swift and Kotlin, where every spelling of the name in the output must be the declared one; distinct = (language, position, depth, outer constructor)", exh.len(), n_exh),
         assumptions: vec![
             "TypeScript has no nullable form at type level: an Option nested inside a container may translate to the bare element type".into(),
             "Go `int` and `uint` are taken at their guaranteed 32 bits; Python int is unbounded".into(),
